@@ -12,17 +12,23 @@ from typing import Any
 from harness.common import Ck, REPO, coq_list, parse_coq_N_list
 from harness import c20_util as U
 from translate import c20_formats as T
+from translate import c20_keytables as KT
+from translate import c20_quant as TQ
 
 MANIFEST = dict(
     technique='Rocq proof (byte-level codec round trips: Hammer command sequences, the scenes.image container driven by a configuration '
               'regenerated from choreo.py incl. string-pool construction and sort site, binary choreo scenes as layouts with a round-trip '
-              'theorem for every layout; quoted-field lexing for the text writers; field splitting of SMD lines; the scene summary) + five '
+              'theorem for every layout; quoted-field lexing for the text writers; field splitting of SMD lines; the scene summary) + seven '
               'fail-closed ast translators (struct formats with the value each field carries on both sides, sort and version sites, line / '
               'field templates, operator-stack census with the version-2 test of Sound.export, the VMT quoting decision table and file '
               'frame, width paths of every binary writer/reader pair; all normalise before matching: struct spellings, helper functions, '
-              'early returns, locals) + vm_compute correspondence on eight models (two exhaustive on a small scope) + round-trip / '
-              'second-generation / observer-effect oracle search on all eight writers',
-    text='Theorems in Props/C20.v (62): cmdseq.parse(cmdseq.write(v)) = v and byte-identical second generation for every configuration '
+              'early returns, locals; round 4: the keyed tables of the writers -- dict / set / find_or_insert / DeferredWrites keys, '
+              'for an object key the attributes its class compares in __eq__ / __ne__ / __hash__ -- with the key each reader stores its '
+              'result under, and the quantisation sites of binary scenes) + vm_compute correspondence on ten models (two exhaustive on a '
+              'small scope; the quantisation model runs on the kernel\'s binary64 floats) + round-trip / second-generation / '
+              'observer-effect oracle search on all eight writers with names that collide under casefold / strip, repeated names and '
+              'deep-copied values; every call into the implementation under a time limit',
+    text='Theorems in Props/C20.v (76): cmdseq.parse(cmdseq.write(v)) = v and byte-identical second generation for every configuration '
          'satisfying the obligations regenerated from cmdseq.py; the scenes.image writer over the configuration regenerated from choreo.py '
          'produces the bytes of the container model for both input forms whatever the dict keys are, parses back (header, pool through '
          'the offset table, CRC-sorted table, v2/v3 summaries, blobs; LZMA as a hypothesis pair), its table is sorted by the stored '
@@ -44,7 +50,16 @@ MANIFEST = dict(
          'Sound.export, regenerated as self-delimiting items, is lexed back as exactly its keywords and field values for all field values '
          '(quoted raw fields without quote / backslash / line break, bare fields bare words); SMD: conversions never touch and every data line splits at whitespace into exactly its fields; '
          'Entry.from_scene: last-speak <= duration, sounds strictly sorted with exactly the used sounds, order independence. '
-         'cmdseq, scenes.image (container, pool+sort), binary scene layout, scene summary, soundscript stacks (all 128 small states x '
+         'Round 4: every de-duplicating table of a writer (SMD bone numbers through dict[Bone, int], the scenes.image string pool, particle '
+         'systems by name, scenes.image slots) is C11\'s find-or-insert table with the key read from the source -- for Bone from its '
+         'comparison methods -- and for every census passing the per-table boolean the record found under the number handed out for an '
+         'object is that object\'s (refuted: Bone compared through name.casefold(), a pool keyed by the casefolded string, a particle '
+         'table keyed more coarsely than the reader keys systems; a hash that is finer than __eq__); the nodes section of Mesh.export '
+         '(dict.fromkeys, passes numbering a bone once its parent is numbered, ValueError without progress) is read back by the '
+         'line-by-line reader as exactly the (name, parent name) records of the bones, each once, whatever the dict order; every stored '
+         'value of a quantised binary-scene field (all 256 byte values for factor 255, all 65536 values for absolute tags) is read as a '
+         'float that min(MAX, max(0, round(v * FACTOR))) writes back as the same field, in IEEE binary64 as evaluated by the kernel. '
+         'cmdseq, scenes.image (container, pool+sort), binary scene layout, SMD bone numbering, tag quantisation, scene summary, soundscript stacks (all 128 small states x '
          'histories of lazy reads) and VMT quoting (all strings of length <= 2 over 25 characters, parameter lines, whole files) models '
          'are compared with the implementation byte for byte / value for value on every run. All eight writers are searched: generated values inside each format\'s alphabet, '
          'write -> read -> equal, write again -> identical, the same with every (lazy) property of the value read first or the value '
@@ -53,11 +68,12 @@ MANIFEST = dict(
          '(the float32 / byte quantisation of values and the Python objects behind the raw fields are outside the model), quoted fields of '
          'the text writers at tokenizer level, soundscript operator stacks at the level of which blocks exist with which children, VMT '
          'files of parameter-only materials at token level (quoted strings without backslash; blocks / proxies and what Material.parse '
-         'builds from the tokens are searched), SMD data lines at word level; soundscript / PCF / SMD / choreo text whole-file round '
-         'trips are decided by search only. Trusted: Coq kernel + vm_compute, translate/c20_formats.py, hand models '
+         'builds from the tokens are searched), SMD data lines at word level and the nodes section as a whole (skeleton / triangle '
+         'sections refer to bones through the same table; their numeric text is searched), quantised fields on stored values (other '
+         'values: correspondence); soundscript / PCF / choreo text whole-file round trips are decided by search only. Trusted: Coq kernel + vm_compute (incl. its primitive binary64 floats), translate/c20_formats.py, c20_keytables.py, c20_quant.py, hand models Fmt/SmdNumber.v, Fmt/ChoreoQuant.v, '
          'Fmt/CmdSeq.v, Fmt/ScenesImage.v, Fmt/ChoreoBin.v layouts, Fmt/SceneSummary.v, Fmt/SndStacks.v, Fmt/VmtQuote.v (each tied by differential runs; the layouts also by '
          'kernel-checked path equality with the generated paths), the tokenizer model KV/KvLex.v of C01, CPython struct/lzma/zlib.crc32. '
-         'Known finding: text VCD flex-animation blocks are written but the reader raises NotImplementedError.',
+         'No known finding left: round 4 repaired the text writer of the flexanimations block (never closed) and implemented its reader.',
 )
 
 IMP_CS = ['Coq.Lists.List', 'Coq.NArith.NArith', 'Coq.ZArith.ZArith', 'Coq.Bool.Bool', 'SV.Fmt.CmdSeq', 'SV.Gen.CmdSeqFmt_gen']
@@ -65,6 +81,7 @@ IMP_SMD = ['Coq.Lists.List', 'Coq.NArith.NArith', 'Coq.Arith.PeanoNat', 'Coq.Boo
 IMP_IMG = ['Coq.Lists.List', 'Coq.NArith.NArith', 'Coq.Bool.Bool', 'SV.Fmt.ScenesImage']
 IMP_TXT = ['Coq.Lists.List', 'Coq.NArith.NArith', 'Coq.Bool.Bool', 'SV.Fmt.SndStacks', 'SV.Fmt.VmtQuote', 'SV.Fmt.TextLines', 'SV.Fmt.TextFields', 'SV.Gen.TextFields_gen']
 IMP_CB = ['Coq.Lists.List', 'Coq.NArith.NArith', 'Coq.Bool.Bool', 'Coq.Arith.PeanoNat', 'SV.Fmt.ChoreoBin', 'SV.Gen.ChoreoBin_gen']
+IMP_KT = ['SV.Gen.KeyTables_gen']
 IMP_IMGCFG = ['Coq.Lists.List', 'Coq.NArith.NArith', 'Coq.Bool.Bool', 'SV.Fmt.ScenesImage', 'SV.Fmt.ScenesImageCfg', 'SV.Gen.ScenesImg_gen']
 
 PRE = '''Import ListNotations. Open Scope N_scope.
@@ -117,7 +134,7 @@ def par_eval(ck: Ck, jobs: list[tuple]) -> list:
 # '*' (a tie that cannot be attributed: failed build, hygiene, unevaluable group) escalates everything, as Ck.budget would.
 FAMILIES = ('cmdseq', 'smd', 'sndscript', 'vmt', 'pcf', 'vcd-text', 'vcd-binary', 'scenes-image')
 FAMILY_OF_OBLIGATION = (('cmdseq_', 'cmdseq'), ('smd_', 'smd'), ('sndscript_', 'sndscript'), ('vmt_', 'vmt'), ('vcd_text_', 'vcd-text'),
-                        ('vcd_binary_', 'vcd-binary'), ('image_', 'scenes-image'))
+                        ('vcd_binary_', 'vcd-binary'), ('image_', 'scenes-image'), ('pcf_', 'pcf'))
 
 
 def tie_families(tie: str) -> set[str]:
@@ -130,7 +147,9 @@ def tie_families(tie: str) -> set[str]:
     for word, fs in (('cmdseq', ('cmdseq',)), ('CmdSeqFmt_gen', ('cmdseq',)), ('SmdTpl_gen', ('smd',)), ('scenes.image', ('scenes-image',)),
                      ('ScenesImg_gen', ('scenes-image',)), ('scene summary', ('scenes-image',)), ('soundscript', ('sndscript',)),
                      ('VMT', ('vmt',)), ('binary choreo', ('vcd-binary',)), ('ChoreoBin_gen', ('vcd-binary',)),
-                     ('TextFields_gen', ('sndscript', 'vmt', 'vcd-text'))):
+                     ('TextFields_gen', ('sndscript', 'vmt', 'vcd-text')),
+                     ('KeyTables_gen', ('smd', 'pcf', 'scenes-image', 'cmdseq')), ('QuantSites_gen', ('vcd-binary',)),
+                     ('quantisation', ('vcd-binary',))):
         if word in tie:
             fams.update(fs)
     return fams or {'*'}
@@ -1150,6 +1169,232 @@ def corr_summary(ck: Ck) -> None:
         ck.extra['summary_disagreement'] = cases[bad[0]][1]
 
 
+# ================================================================================================ SMD bone numbering
+
+SMD_NUM_NAMES = ['root', 'Root', 'ROOT', 'root ', ' root', 'a', 'A', 'b', 'B', 'b  c', 'b c', 'Weapon', 'weapon', 'x.y', "it's"]
+
+
+def corr_smd_number(ck: Ck):
+    """Fmt/SmdNumber.v `number` vs the nodes section Mesh.export writes (or ValueError): bones given children-first, in cycles, with
+    parents that are equal-but-not-identical objects or outside the mesh, several Bone objects of one name under different dict keys,
+    names that differ only in case / blanks (different keys for the model: the file keeps them apart)."""
+    import re as _re
+    from srctools.smd import Mesh, Bone
+    n = bud(ck, ('smd',), 80, 800)
+    cases: list[tuple[str, dict]] = []
+    line_re = _re.compile(rb'(\d+) "([^"]*)" (-?\d+)')
+    for _ in range(n):
+        rng = ck.rng
+        nb = rng.choice([1, 2, 2, 3, 3, 4, 5, 7])
+        pool = rng.sample(SMD_NUM_NAMES, rng.choice([2, 3, 5, len(SMD_NUM_NAMES)]))
+        spec = []
+        for i in range(nb):
+            r = rng.random()
+            if r < 0.25:
+                par: Any = None
+            elif r < 0.7:
+                par = rng.randrange(i) if i else None       # an earlier bone (the dict order is shuffled below: children may come first)
+            elif r < 0.8:
+                par = rng.randrange(nb)                     # any bone: later ones, itself (a cycle)
+            elif r < 0.95:
+                par = ['copy', rng.randrange(i + 1)]        # an equal but not identical object
+            else:
+                par = ['outside', rng.choice(SMD_NUM_NAMES)]
+            spec.append({'name': rng.choice(pool), 'parent': par})
+        order = list(range(nb))
+        if rng.random() < 0.6:
+            rng.shuffle(order)
+        spec = [dict(spec[i], parent=(order.index(spec[i]['parent']) if isinstance(spec[i]['parent'], int) else
+                                      (['copy', order.index(spec[i]['parent'][1])] if isinstance(spec[i]['parent'], list) and spec[i]['parent'][0] == 'copy'
+                                       else spec[i]['parent']))) for i in order]
+        ck.count('corr_smd_number')
+        codes: dict[str, int] = {}
+
+        def code(nm: str) -> int:
+            return codes.setdefault(nm, len(codes) + 1)
+        objs = [Bone(b['name'], None) for b in spec]
+        model = []
+        for b, o in zip(spec, objs):
+            par = b['parent']
+            if par is None:
+                pc = None
+            elif isinstance(par, int):
+                o.parent = objs[par]
+                pc = code(spec[par]['name'])
+            elif par[0] == 'copy':
+                o.parent = Bone(spec[par[1]]['name'], None)
+                pc = code(spec[par[1]]['name'])
+            else:
+                o.parent = Bone(par[1], None)
+                pc = code(par[1])
+            model.append((code(b['name']), pc))
+        bones = {f'{o.name}#{i}': o for i, o in enumerate(objs)}
+        f = io.BytesIO()
+        try:
+            U.limited(Mesh(bones, {}, []).export, f)
+            data = f.getvalue()
+            sec = data[data.index(b'nodes\n') + 6:data.index(b'end\n')]
+            flat: list[int] | None = []
+            for ln in sec.split(b'\n'):
+                if not ln:
+                    continue
+                m = line_re.fullmatch(ln)
+                if m is None:
+                    flat = [999999]
+                    break
+                flat += [int(m.group(1)), code(m.group(2).decode('ascii')), int(m.group(3)) + 1]
+            got = 'Some ' + nl(flat)
+        except ValueError:
+            got = 'None'
+        except Exception as e:      # anything else is a disagreement (the model only knows ValueError)
+            got = 'Some ' + nl([888888])
+            ck.extra.setdefault('smd_number_exception', repr(e)[:200])
+            ck.violation(f'smd:write-error:{type(e).__name__}:skeleton', f'Mesh.export of a skeleton without animation fails with {e!r}'[:300]
+                         + ' (bones as (name, parent): an index, a copy of a bone, or a bone outside the mesh)', {'format': 'smd-skeleton', 'bones': spec})
+            if U.TIMEOUTS[0] >= 3:
+                break
+        lit = '(' + coq_list('(mkBone %d %s)' % (k, 'None' if p is None else f'(Some {p})') for k, p in model) + ', ' + got + ')'
+        js = json.dumps(spec)
+        if len(spec) >= 2:
+            ck.seen(('smd-number', js))
+        ck.hist('corr_smd_number', 'error' if got == 'None' else 'numbered')
+        cases.append((lit, {'bones': spec, 'written': got}))
+    pre = PRE + ('Definition flatl (l : nline) : list N := let \'(i, k, p) := l in [N.of_nat i; k; match p with Some j => N.of_nat j + 1 | None => 0 end].\n'
+                 'Definition okn (c : list bone * option (list N)) : bool := onl_eqb (option_map (flat_map flatl) (number (fst c))) (snd c).\n')
+    jobs = []
+    for lo in range(0, len(cases), 200):
+        jobs.append((['Coq.Lists.List', 'Coq.NArith.NArith', 'Coq.Bool.Bool', 'SV.Fmt.SmdNumber'],
+                     ['bad_idx okn 0 ' + coq_list(c for c, _ in cases[lo:lo + 200])], f'smdnum{lo}', pre))
+    bad: list[int] = []
+    for lo, vals in zip(range(0, len(cases), 200), (yield jobs)):
+        if vals is None:
+            ck.obligation('correspondence:smd-numbering', False, 'model could not be evaluated')
+            ck.tie_broken.append('correspondence SmdTpl_gen smd numbering: model evaluation failed')
+            return
+        bad += [lo + i for i in parse_coq_N_list(vals[0])]
+    ck.obligation('correspondence:smd-numbering', not bad,
+                  f'{len(cases)} generated skeletons (children first, cycles, parents outside the mesh or equal-but-not-identical, several objects '
+                  f'of one name, names differing only in case / blanks): number (Fmt/SmdNumber.v) vs the nodes section of Mesh.export or ValueError: '
+                  f'{len(bad)} disagreements')
+    if bad:
+        ck.tie_broken.append('correspondence SmdTpl_gen smd numbering (Fmt/SmdNumber.v number vs Mesh.export nodes section)')
+        ck.extra['smd_number_disagreement'] = cases[bad[0]][1]
+
+
+# ================================================================================================ quantised fields
+
+def _mant_exp(v: float) -> tuple[int, int]:
+    """v = m * 2^e exactly, 0 <= m < 2^53 (v >= 0 finite)."""
+    import math
+    if v == 0:
+        return 0, 0
+    fr, ex = math.frexp(v)
+    m = int(fr * 2 ** 53)
+    assert m * 2.0 ** (ex - 53) == v
+    return m, ex - 53
+
+
+def corr_quant(ck: Ck):
+    """Fmt/ChoreoQuant.v `quant` / `dequant` over the regenerated sites vs Tag / AbsoluteTag.export_binary and parse_binary on
+    arbitrary values: random ones, exact ties (k + 1/2) / FACTOR and their float neighbours, grid values."""
+    import math
+    from srctools.choreo import Tag, AbsoluteTag
+    rng = ck.rng
+    cases: list[tuple[str, dict]] = []
+    for _ in range(bud(ck, ('vcd-binary',), 150, 2000)):
+        cls = rng.choice([Tag, Tag, AbsoluteTag])
+        fac, mx = cls._FACTOR, cls._MAX
+        top = 1.0           # AbsoluteTag is not re-decorated with attrs.define: Tag's validator (<= 1.0) is the one in force
+        kmax = int(top * fac)
+        r = rng.random()
+        k = rng.randrange(kmax)
+        if r < 0.3:
+            v = rng.random() * top
+        elif r < 0.55:
+            v = (k + 0.5) / fac
+        elif r < 0.8:
+            v = math.nextafter((k + 0.5) / fac, rng.choice([0.0, 2.0 * top]))
+        else:
+            v = rng.randrange(kmax + 1) / fac
+        v = min(top, max(0.0, v))
+        ck.count('corr_quant')
+        try:
+            f = io.BytesIO()
+            cls.export_binary(f, lambda s_: 0, [cls('n', v)])
+            data = f.getvalue()
+            field = struct.unpack(cls._FMT.format, data[1:])[1]
+            back = cls.parse_binary(io.BytesIO(data), ['n'], False)[0].value
+            got = f'Some ({field}, {"(%d, %d)" % _mant_exp(back)})'
+        except Exception as e:
+            got = 'None'
+            ck.extra.setdefault('quant_exception', repr(e)[:200])
+        m, e = _mant_exp(v)
+        lit = f'("{cls.__name__}#1"%string, ({m}, {e}), {got})'
+        ck.seen(('quant', cls.__name__, v))
+        ck.hist('corr_quant', cls.__name__ + (':tie' if (v * fac) % 1 == 0.5 else ''))
+        cases.append((lit, {'class': cls.__name__, 'value': v, 'written_and_read': got}))
+    pre = ('Require Import Coq.ZArith.ZArith. Require Import Coq.Floats.Floats. Require Import Coq.Strings.String. Open Scope Z_scope.\n'
+           'Import ListNotations.\n'
+           'Fixpoint bad_idx {A} (f : A -> bool) (n : N) (l : list A) : list N := match l with [] => [] | x :: r => (if f x then [] else [n]) ++ bad_idx f (n + 1)%N r end.\n'
+           'Definition okq (c : string * (Z * Z) * option (Z * (Z * Z))) : bool :=\n'
+           '  let \'(n, (m, e), r) := c in let s := cq_site n in\n'
+           '  match quant s (mk_float false m e), r with\n'
+           '  | Some k, Some (fld, (mb, eb)) => (k =? fld) && PrimFloat.eqb (dequant s fld) (mk_float false mb eb)\n'
+           '  | _, _ => false end.\n')
+    jobs = []
+    for lo in range(0, len(cases), 500):
+        jobs.append((['Coq.Lists.List', 'Coq.NArith.NArith', 'Coq.Bool.Bool', 'SV.Fmt.ChoreoQuant', 'SV.Gen.QuantSites_gen'],
+                     ['bad_idx okq 0%N ' + coq_list(c for c, _ in cases[lo:lo + 500])], f'quant{lo}', pre))
+    bad: list[int] = []
+    for lo, vals in zip(range(0, len(cases), 500), (yield jobs)):
+        if vals is None:
+            ck.obligation('correspondence:vcd-binary-quantisation', False, 'model could not be evaluated')
+            ck.tie_broken.append('correspondence binary choreo quantisation: model evaluation failed')
+            return
+        bad += [lo + i for i in parse_coq_N_list(vals[0])]
+    ck.obligation('correspondence:vcd-binary-quantisation', not bad,
+                  f'{len(cases)} values (random, exact ties (k + 1/2) / FACTOR and their float neighbours, grid values) for Tag and AbsoluteTag: '
+                  f'quant / dequant (Fmt/ChoreoQuant.v, kernel floats) vs the field export_binary writes and the value parse_binary returns: '
+                  f'{len(bad)} disagreements')
+    if bad:
+        ck.tie_broken.append('correspondence binary choreo quantisation (Fmt/ChoreoQuant.v vs Tag.export_binary / parse_binary)')
+        ck.extra['quant_disagreement'] = cases[bad[0]][1]
+        ck.violation('vcd-binary:quantisation:' + cases[bad[0]][1]['class'], 'the field written for a tag value / the value read back is not '
+                     'min(MAX, max(0, round(value * FACTOR))) / (field / FACTOR)', {'format': 'vcd-binary-tag', **cases[bad[0]][1]})
+
+
+# ================================================================================================ keyed tables
+
+KT_FAMILY = {'smd': 'smd_', 'particles': 'pcf_', 'cmdseq': 'cmdseq_', 'sndscript': 'sndscript_', 'vmt': 'vmt_'}
+
+
+def kt_prefix(qual: str) -> str:
+    mod = qual.split('.', 1)[0]
+    if mod == 'choreo':
+        return 'image_' if 'scenes_image' in qual else 'vcd_binary_'
+    return KT_FAMILY.get(mod, 'smd_')
+
+
+def key_table_obligations(side: dict) -> dict[str, str]:
+    """One named boolean per keyed table and per key class of the regenerated census (names carry the format family, so a
+    failing one escalates the search of that format only), plus the reader keys the representable alphabets rely on."""
+    import re as _re
+    obs: dict[str, str] = {}
+    defs = side.get('obligation_defs', {})
+    for t in side.get('tables', {}):
+        nm = _re.sub(r'[^A-Za-z0-9]+', '_', t.split('.', 1)[1]).strip('_')
+        obs[f'{kt_prefix(t)}table_{nm}_keeps_apart_whatever_the_reader_keeps_apart_and_is_looked_up_as_it_is_filled'] = defs[f'table:{t}']
+    for c in side.get('classes', {}):
+        nm = _re.sub(r'[^A-Za-z0-9]+', '_', c.split('.', 1)[1]).strip('_')
+        obs[f'{kt_prefix(c)}class_{nm}_eq_ne_hash_agree_with_each_other'] = defs[f'class:{c}']
+    obs['smd_bone_tables_present_in_the_census'] = 'kt_ok_bone_tables_present'
+    obs['smd_bones_compared_by_exactly_the_name_so_copies_of_a_bone_are_that_bone'] = 'kt_ok_bone_eq_is_name'
+    obs['smd_reader_keys_bones_by_the_exact_name'] = 'kt_ok_smd_reader_key'
+    obs['cmdseq_reader_keys_sequences_by_the_exact_name'] = 'kt_ok_cmdseq_reader_key'
+    obs['image_string_pool_table_present_in_the_census'] = 'kt_ok_pool_table_present'
+    return obs
+
+
 # ================================================================================================ oracle search
 
 def trigger(fmt: str, small: Any, res: tuple) -> str:
@@ -1178,6 +1423,8 @@ def trigger(fmt: str, small: Any, res: tuple) -> str:
         if ('\\\\' in js or "'" in js) and stage == 'value-diff':
             return 'block-text-escaped'
     if fmt == 'pcf' and stage == 'value-diff':
+        if 'children' in detail and colliding_names(small):
+            return 'names-equal-after-casefold-or-strip'
         if detail.endswith('.len'):
             return 'name-copied-into-options'
         return 'option-name-case'
@@ -1188,13 +1435,33 @@ def trigger(fmt: str, small: Any, res: tuple) -> str:
             return 'unescaped-string'
         if 'scale_settings' in detail:
             return 'unescaped-string'
+    if colliding_names(small):
+        return 'names-equal-after-casefold-or-strip'
     return 'other'
+
+
+def colliding_names(spec: Any) -> bool:
+    """Does the spec hold two different strings that are equal after casefold + whitespace normalisation?"""
+    seen: dict[str, str] = {}
+    todo = [spec]
+    while todo:
+        v = todo.pop()
+        if isinstance(v, dict):
+            todo += list(v.values())
+        elif isinstance(v, list):
+            todo += v
+        elif isinstance(v, str) and v.strip():
+            k = ' '.join(v.casefold().split())
+            if seen.setdefault(k, v) != v:
+                return True
+    return False
 
 
 def search_format(ck: Ck, name: str, n: int) -> None:
     fmt = U.FORMATS[name]
     found: dict[str, tuple] = {}
     shrinks = 0
+    hung = 0
     for i in range(n):
         spec = fmt.gen(ck.rng)
         ck.count(f'roundtrip_{name}')
@@ -1203,11 +1470,31 @@ def search_format(ck: Ck, name: str, n: int) -> None:
         if len(js) > 150:
             ck.seen((name, js))
         ck.hist('oracle_' + name, 'ok' if res is None else res[0])
+        ck.hist('names_' + name, ('colliding-under-casefold-or-strip' if colliding_names(spec) else 'no-collision')
+                + ('+deep-copied' if isinstance(spec, dict) and spec.get('copy') else ''))
+        if name in ('vcd-text', 'sndscript', 'vmt') and (res is None or res[0] == 'read-error'):
+            bb = U.brace_balance(fmt, spec)
+            if bb is not None:
+                key = f'{name}:{bb[0]}:{bb[1]}:{trigger(name, spec, ("read-error", "NotImplementedError", None))}'
+                if key not in found:
+                    def unbalanced(sp, kind=(bb[0], bb[1])):
+                        q = U.brace_balance(fmt, sp)
+                        return q is not None and (q[0], q[1]) == kind
+                    small = U.shrink_spec(spec, unbalanced, budget=150)
+                    found[key] = ((bb[0], bb[1]), small, U.brace_balance(fmt, small) or bb)
         if res is None or res[0] == 'build-error':
             if res is not None:
                 ck.count('generator_rejected_by_constructor')
             continue
         kind = (res[0], res[1])
+        if res[1] == 'ImplTimeout':
+            # the implementation hangs on this input: a failing input as it is (shrinking would wait for the limit again and again)
+            key = f'{name}:{res[0]}:{res[1]}:{trigger(name, spec, res)}'
+            found.setdefault(key, (kind, spec, res))
+            hung += 1
+            if hung >= 3:
+                break
+            continue
         if sum(1 for k in found.values() if k[0] == kind) >= 3:
             continue
         if shrinks >= 12:
@@ -1290,11 +1577,13 @@ def image_extra(ck: Ck, n: int) -> None:
     from srctools.choreo import Entry, parse_scenes_image, save_scenes_image_sync
     fmt = U.FORMATS['scenes-image']
     for _ in range(n):
+        if U.TIMEOUTS[0] >= 3:
+            break                   # a writer / reader hangs (already reported with its input by the round-trip search)
         spec = U.image_gen(ck.rng)
         ck.count('image_invariants')
         try:
             version, entries = U.image_build(spec)
-            data = U.image_write((version, entries))
+            data = U.limited(U.image_write, (version, entries))
         except Exception as e:
             ck.violation(f'scenes-image:write-error:{type(e).__name__}:invariants', 'scenes.image could not be written', {'format': 'scenes-image', 'spec': spec})
             continue
@@ -1378,8 +1667,8 @@ def sample_files(ck: Ck) -> None:
         ck.count('sample_files')
         try:
             want = fmt.canon(obj)
-            out1 = fmt.write(obj)
-            obj2 = fmt.read(out1)
+            out1 = U.limited(fmt.write, obj)
+            obj2 = U.limited(fmt.read, out1)
             d = U.diff_path(want, fmt.canon(obj2))
             if d is not None:
                 ck.violation(f'sample:{label}:value-diff:{d}', f'sample file {label}: value differs after write/read at {d}', {'file': label})
@@ -1408,7 +1697,10 @@ def sample_files(ck: Ck) -> None:
             ck.violation(f'sample:test_choreo/sample.vcd:binary:{type(e).__name__}', repr(e)[:300], {'file': str(p)})
     p = tests / 'test_vmt' / 'test_export.vmt'
     if p.exists():
-        one('test_vmt/test_export.vmt', U.FORMATS['vmt'], Material.parse(p.read_text()))
+        try:
+            one('test_vmt/test_export.vmt', U.FORMATS['vmt'], U.limited(Material.parse, p.read_text()))
+        except Exception as e:
+            ck.violation(f'sample:test_vmt/test_export.vmt:{type(e).__name__}', f'sample file could not be read: {e!r}'[:300], {'file': str(p)})
     p = tests / 'test_particles' / 'sample.pcf'
     if p.exists():
         one('test_particles/sample.pcf', U.FORMATS['pcf'], list(Particle.parse(open(p, 'rb')).values()))
@@ -1436,13 +1728,23 @@ def run(ck: Ck) -> None:
                '(cmdseq, scenes.image container, scenes.image pool+sort, binary scene layout, scene summary) are distinct by file bytes / spec '
                'and non-trivial when they contain a command / two entries / more than 60 bytes / two events; soundscript stack cases are '
                'the complete small scope (state x history), VMT quoting cases every string of length <= 2 over the delimiter alphabet, '
-               'parameter lines longer than 6 characters and whole files with at least two parameters')
+               'parameter lines longer than 6 characters and whole files with at least two parameters; every generator keeps a bag of the '
+               'strings used in the spec and re-uses them or derives variants that collide under casefold / strip (only blanks where the '
+               'format itself ignores case), a quarter of the SMD meshes are deep copies (equal but not identical Bone objects); skeleton '
+               'cases (children first, cycles, copies, foreign parents, several objects of one name) count when they have two bones, '
+               'quantisation cases are distinct by (class, value)')
     ck.trusted.append('hand-written models Fmt/CmdSeq.v, Fmt/ScenesImage.v, Fmt/ScenesImageCfg.v (writer over the generated configuration), '
                       'Fmt/ChoreoBin.v (layouts), Fmt/SceneSummary.v: tied by byte-exact / value-exact differential correspondence on every run; '
                       'the layouts additionally by kernel-checked equality of their width paths with the paths regenerated from choreo.py')
     ck.trusted.append('hand-written models Fmt/SndStacks.v (lazy operator stacks of Sound over the regenerated census) and Fmt/VmtQuote.v '
                       '(quoting decision, parameter line, file of a parameter-only material over the regenerated table): exhaustive small-scope / '
                       'generated differential correspondence with Sound.export / parse_one and vmt._needs_quotes / Material.export on every run')
+    ck.trusted.append('hand-written models Fmt/SmdNumber.v (bone numbering of Mesh.export and the line table of the reader) and Fmt/ChoreoQuant.v '
+                      '(round / clamp / divide on the kernel floats): differential correspondence with Mesh.export and Tag / AbsoluteTag.export_binary / '
+                      'parse_binary on every run; Fmt/BspDedup*.v (C11) for the find-or-insert table; WRITER_ITEM / READERS tables of '
+                      'translate/c20_keytables.py (which function is a writer / reader, which class a str-keyed table stands for)')
+    ck.trusted.append('Coq kernel primitives PrimInt63.* and PrimFloat.* (63-bit integers, IEEE binary64): the quantisation theorems are computations on '
+                      'them; Print Assumptions lists these primitives and no logical axiom (no FloatAxioms)')
     ck.trusted.append('KV/KvLex.v (tokenizer model of C01) for the quoted-field theorems; the escape table is tied to tokenizer.py by C01')
     ck.trusted.append('CPython struct (float32 conversion of the version tag and of scene times), lzma and zlib.crc32 (outside the models)')
     ck.assumptions += [
@@ -1457,6 +1759,14 @@ def run(ck: Ck) -> None:
         'reading with and without escapes is the same; the bare-string loop is the same code for every Tokenizer configuration without '
         'the colon / plus operators (Material.parse uses none)',
         'scene summary: event times are non-negative float32 values (value * 1000.0 is then exact in double arithmetic)',
+        'keyed tables: what identifies an object in a format is taken from the key under which the reader stores its result (bones by '
+        'exact name, particle systems by casefolded name, scenes.image entries by checksum, pool strings by position); objects whose '
+        'identifying attributes are pairwise distinct (under the transformations the reader itself applies) are the representable values',
+        'SMD numbering model: bone names as codes (distinct names = distinct codes, computed by the check from the exact strings); the '
+        'skeleton / triangles sections refer to bones through the same table (bone_indexes) -- their numeric text is searched, not modelled',
+        'quantised fields: Coq primitive floats are the IEEE binary64 arithmetic of the machine (kernel primitive, same as CPython\'s '
+        'float multiply / divide; compared on every run); Tag.value is validated to [0, 1] (AbsoluteTag is not re-decorated, so Tag\'s '
+        'validator is the one in force)',
         'PCF: element UUIDs are fresh random values on every export (Particle has no UUID field); second-generation identity is checked with srctools.dmx.get_uuid replaced by a counter',
         'representable alphabets exclude: NUL / non-ASCII / over-long strings (cmdseq); quotes, comment starters and file extensions in SMD names; '
         'quote and backslash in soundscript strings; quote in VMT strings; single-link SMD vertices with weight != 1; '
@@ -1468,9 +1778,11 @@ def run(ck: Ck) -> None:
     ok3 = ck.translate('ScenesImg_gen', T.translate_scenes_image)
     ok4 = ck.translate('TextFields_gen', T.translate_text_writers)
     ok5 = ck.translate('ChoreoBin_gen', T.translate_choreo_bin)
+    ok6 = ck.translate('KeyTables_gen', KT.translate_keytables)
+    ok7 = ck.translate('QuantSites_gen', TQ.translate_quant)
     built = ck.build(['Props/C20.vo'] + (['Gen/CmdSeqFmt_gen.vo'] if ok1 else []) + (['Gen/SmdTpl_gen.vo'] if ok2 else [])
                      + (['Gen/ScenesImg_gen.vo'] if ok3 else []) + (['Gen/TextFields_gen.vo'] if ok4 else [])
-                     + (['Gen/ChoreoBin_gen.vo'] if ok5 else []))
+                     + (['Gen/ChoreoBin_gen.vo'] if ok5 else []) + (['Gen/KeyTables_gen.vo'] if ok6 else []) + (['Gen/QuantSites_gen.vo'] if ok7 else []))
     lap('translate+build')
     finish_theorems = theorems_async(ck, 'Props/C20.v') if built else None
     # the correspondences are generators: they build their cases (Python, consuming ck.rng in a fixed order), yield the Coq jobs, and
@@ -1481,9 +1793,17 @@ def run(ck: Ck) -> None:
     pending: list[tuple] = []
 
     def launch(gen) -> None:
+        # building the cases calls the implementation: under a watchdog far above what the stage takes (quick: < 30 s loaded, thorough: 205 s)
+        what = getattr(gen, '__name__', 'correspondence')
         try:
-            jobs = next(gen)
+            jobs = U.limited(next, gen, seconds=900 if not ck.thorough else 3600)
         except StopIteration:
+            return
+        except U.ImplTimeout as e:
+            ck.obligation(f'correspondence:{what}', False, f'building the cases did not finish: a call into the implementation does not return ({e})')
+            ck.tie_broken.append(f'correspondence {what}: a call into the implementation does not return')
+            ck.violation(f'{what}:implementation-did-not-return', f'{what}: a writer / reader called while building the correspondence cases did not '
+                         'return within the watchdog limit (the round-trip search names the input)', {'stage': what, 'limit': str(e)})
             return
         pending.append((gen, [pool.submit(lambda j=j: ck.coq_eval(j[0], j[1], name=j[2], preamble=j[3])) for j in jobs]))
 
@@ -1580,6 +1900,19 @@ def run(ck: Ck) -> None:
             'cb_nl_eqb cb_kinds_w cb_kinds_r && existsb (N.eqb cb_type_gesture) cb_kinds_r && existsb (N.eqb cb_type_loop) cb_kinds_r '
             '&& existsb (N.eqb cb_type_speak) cb_kinds_r && negb (N.eqb cb_type_gesture cb_type_loop) && negb (N.eqb cb_type_loop cb_type_speak) '
             '&& negb (N.eqb cb_type_gesture cb_type_speak)')
+    if built and ok6:
+        # the booleans are defined in the Gen file: no string literal (and no import of Coq.Strings.String, which shadows `length`) here
+        m_imps += IMP_KT
+        m_what.append('the keyed tables of the writers (dict / set / find_or_insert keys incl. __eq__ / __hash__ of the key class)')
+        m_obs.update(key_table_obligations(ck.extra.get('translated', {}).get('KeyTables_gen', {})))
+    if built and ok7:
+        m_imps += ['SV.Gen.QuantSites_gen']
+        m_what.append('the quantised fields of binary choreo scenes')
+        m_obs.update({
+            'vcd_binary_every_quantised_field_value_is_read_and_written_back_as_itself': 'cq_all_sites_stable',
+            'vcd_binary_quantisation_factor_same_on_both_sides': 'cq_factors_agree',
+            'vcd_binary_quantisation_census_nonempty': 'cq_census_size_ok',
+        })
     if m_obs:
         tie(ck.instance_obligations(list(dict.fromkeys(m_imps)), m_obs, name='tpl'), ' / '.join(m_what))
     lap('instance-smd+text+choreo-bin')
@@ -1591,8 +1924,11 @@ def run(ck: Ck) -> None:
     lap('gen-snd-stacks+vmt-quote+line-census')
     if built and ok5:
         launch(corr_choreo_bin(ck))
+    if built and ok7:
+        launch(corr_quant(ck))
     lap('gen-choreo-bin')
     if built:
+        launch(corr_smd_number(ck))
         launch(corr_summary(ck))
     lap('gen-summary')
     if built:
@@ -1642,8 +1978,14 @@ def run(ck: Ck) -> None:
     ck.sample({'smd_lines_from_source': ck.extra.get('translated', {}).get('SmdTpl_gen', {}).get('lines', [])[:6]})
     # ---- broken obligations explained by concrete inputs
     keys = [v['key'] for v in ck.violations]
-    if any(k.startswith('smd:read-error') or k.startswith('smd:value-diff') for k in keys):
+    if any(k.startswith(('smd:read-error', 'smd:value-diff', 'smd:write-error', 'smd:regen-diff', 'smd:rewrite-error')) for k in keys):
         ck.explain('instance:smd_')
+    if any(k.startswith('smd:') for k in keys):
+        ck.explain('correspondence:smd-numbering')
+    if any(k.startswith('pcf:') for k in keys):
+        ck.explain('instance:pcf_')
+    if any(k.startswith(('smd:', 'pcf:', 'scenes-image:', 'cmdseq:')) for k in keys):
+        ck.explain('translate:KeyTables_gen')
     if any(k.startswith('cmdseq:') for k in keys):
         for o in ('instance:cmdseq_', 'correspondence:cmdseq'):
             ck.explain(o)
@@ -1651,6 +1993,8 @@ def run(ck: Ck) -> None:
         ck.explain('instance:vcd_binary_')
         ck.explain('translate:ChoreoBin_gen')
         ck.explain('correspondence:vcd-binary-layout')
+        ck.explain('correspondence:vcd-binary-quantisation')
+        ck.explain('translate:QuantSites_gen')
     if any(k.startswith('scenes-image:summary-inconsistent') for k in keys):
         ck.explain('correspondence:scene-summary')
     for pre, ob in (('sndscript:', 'instance:sndscript_'), ('vmt:', 'instance:vmt_'), ('vcd-text:', 'instance:vcd_text_')):
@@ -1672,7 +2016,8 @@ def replay(data: dict) -> int:
     r = data['replay']
     if isinstance(r, dict) and 'spec' in r and r.get('format') in U.FORMATS:
         fmt = U.FORMATS[r['format']]
-        res = U.observer_check(fmt, r['spec']) if r.get('oracle') == 'observer' else U.roundtrip(fmt, r['spec'])
+        res = U.observer_check(fmt, r['spec']) if r.get('oracle') == 'observer' else \
+            (U.brace_balance(fmt, r['spec']) if r.get('result', [''])[0] == 'unbalanced-braces' else U.roundtrip(fmt, r['spec']))
         print('spec   :', json.dumps(r['spec'])[:2000])
         try:
             out = fmt.write(fmt.build(r['spec']))
